@@ -98,6 +98,12 @@ def obligations(tier, seed=0):
         add('cmul', prec=2, rnd=rnd, fn='mpc_square', zbc=[11, 9], wbc=[11, 9], zoff=-13, woff=-13, precise=True)
         add('cpow_int', zbc=[10, 10], zoff=12, n=2, prec=1, rnd=rnd)
     add('cpow_int', zbc=[10, 10], zoff=12, n=2, prec=1, rnd='n', entry='op')
+    # one operand purely real or purely imaginary (stored as mpc), every mode: a shortcut through a real-multiplication helper
+    # must still round the *signed* component in the requested direction
+    for rnd in RNDS:
+        for zb, wb in (([4, 5], [0, 4]), ([4, 5], [4, 0]), ([0, 5], [4, 3]), ([5, 0], [3, 4]), ([0, 4], [0, 5])):
+            add('cmul', prec=3, rnd=rnd, fn='mpc_mul', zbc=zb, wbc=wb, zoff=1, woff=0)
+        add('cmul', prec=3, rnd=rnd, fn='mpc_mul', zbc=[4, 5], wbc=[0, 4], zoff=1, woff=0, entry='f')
     # division, reciprocal, real / complex: |q*w - z| <= 4 * 2**-prec * |z| (a few ulps in modulus); complex / real: correctly rounded
     add('cdiv', fn='mpc_div', zbc=[3, 2], wbc=[2, 3], zoff=-1, woff=0, prec=3, rnd='n')
     add('cdiv', fn='mpc_div', zbc=[2, 3], wbc=[3, 2], zoff=1, woff=-1, prec=3, rnd='f')
